@@ -107,10 +107,22 @@ impl<Key, Value> CommandExecutor<Key, Value>
             ttl_ticker: Arc<TTLTicker>) {
         let store_clone = store.clone();
         let delete_hook = move |key| { store_clone.delete(&key); };
+        #[cfg(feature = "verif_hooks")]
+        let verif = crate::cache::verif::current();
 
         thread::spawn(move || {
+            #[cfg(feature = "verif_hooks")]
+            crate::cache::verif::install(Some(verif.clone()));
             while let Ok(pair) = receiver.recv() {
+                #[cfg(feature = "verif_hooks")]
+                verif.worker_gate.pass();
+                #[cfg(feature = "verif_hooks")]
+                verif.point(crate::cache::verif::Site::WorkerAfterDequeue);
+                #[cfg(feature = "verif_hooks")]
+                let verif_begin = verif.next_stamp();
                 let command = pair.command;
+                #[cfg(feature = "verif_hooks")]
+                let verif_kind = command.description();
                 let status = match command {
                     CommandType::Put(key_description, value) =>
                         Self::put(PutParameter {
@@ -149,12 +161,27 @@ impl<Key, Value> CommandExecutor<Key, Value>
                         info!("Received Shutdown command");
                         pair.acknowledgement.done(CommandStatus::Accepted);
                         for command_acknowledgement_pair in receiver.iter() {
+                            #[cfg(feature = "verif_hooks")]
+                            verif.event(crate::cache::verif::Event::Drained { ack: Arc::as_ptr(&command_acknowledgement_pair.acknowledgement) as usize, stamp: verif.next_stamp() });
                             command_acknowledgement_pair.acknowledgement.done(CommandStatus::ShuttingDown);
                         }
                         drop(receiver);
                         break;
                     }
                 };
+                #[cfg(feature = "verif_hooks")]
+                verif.event(crate::cache::verif::Event::Executed {
+                    ack: Arc::as_ptr(&pair.acknowledgement) as usize,
+                    kind: verif_kind,
+                    status,
+                    begin: verif_begin,
+                    end: verif.next_stamp(),
+                    thread: crate::cache::verif::thread_tag(),
+                });
+                #[cfg(feature = "verif_hooks")]
+                verif.commands_executed.fetch_add(1, std::sync::atomic::Ordering::AcqRel);
+                #[cfg(feature = "verif_hooks")]
+                verif.point(crate::cache::verif::Site::WorkerBeforeAcknowledge);
                 pair.acknowledgement.done(status);
             }
         });
@@ -166,10 +193,21 @@ impl<Key, Value> CommandExecutor<Key, Value>
     /// 2) It allows `CommandExecutor` to change the status of the command inside `CommandAcknowledgement`. This would then finish the `await` at the client's end.
     pub(crate) fn send(&self, command: CommandType<Key, Value>) -> CommandSendResult {
         let acknowledgement = CommandAcknowledgement::new();
+        #[cfg(feature = "verif_hooks")]
+        let verif = crate::cache::verif::installed();
+        #[cfg(feature = "verif_hooks")]
+        let verif_kind = command.description();
+        #[cfg(feature = "verif_hooks")]
+        let verif_before = verif.as_ref().map(|verif| { verif.point(crate::cache::verif::Site::SendBefore); verif.next_stamp() });
         let send_result = self.sender.send(CommandAcknowledgementPair {
             command,
             acknowledgement: acknowledgement.clone(),
         });
+        #[cfg(feature = "verif_hooks")]
+        if let Some(verif) = verif.as_ref() {
+            verif.event(crate::cache::verif::Event::Sent { ack: Arc::as_ptr(&acknowledgement) as usize, kind: verif_kind, before: verif_before.unwrap_or(0), after: verif.next_stamp() });
+            verif.point(crate::cache::verif::Site::SendAfter);
+        }
 
         match send_result {
             Ok(_) => Ok(acknowledgement),
